@@ -74,11 +74,30 @@ def mval(v):
 
 # ---- numbering of CancellableAction objects (harness-side wrapping only) -------------------------
 _ACTS = []
+_CURRENT = [None]        # the process of the run in progress (garbage of earlier runs must not be attributed to it)
 _orig_ca_init = pfutures.CancellableAction.__init__
+
+
+def _action_owner(fn):
+    import functools
+    if isinstance(fn, functools.partial):
+        return getattr(fn.func, '__self__', None)
+    for c in getattr(fn, '__closure__', None) or ():
+        try:
+            v = c.cell_contents
+        except ValueError:
+            continue
+        if isinstance(v, plumpy.Process):
+            return v
+    return None
 
 
 def _ca_init(self, action, cookie=None):
     _orig_ca_init(self, action, cookie)
+    owner = _action_owner(action)
+    if owner is not None and owner is not _CURRENT[0]:
+        self._verif_id = -1
+        return
     _ACTS.append(self)
     self._verif_id = len(_ACTS)
 
@@ -275,6 +294,7 @@ class Run:
         self.hooks = Hooks(list(plan), self.log)
         cls = build_class(prog, out_missing)
         self.proc = p = cls()
+        _CURRENT[0] = p
         p._vlog = self.log
         p._vhooks = self.hooks
         self.listener = Recorder(self.log, self.hooks)
